@@ -122,10 +122,23 @@ class _Futures:
     return call
 
 
+def release_address(address):
+  """Completes every held reply of one server; returns how many."""
+  n = 0
+  while True:
+    with _LOCK:
+      idx = next((i for i, h in enumerate(HELD) if len(h) > 2 and h[2] == address), None)
+      if idx is None:
+        return n
+      fut, result, *_ = HELD.pop(idx)
+    fut.set_result(result)
+    n += 1
+
+
 def release(i=0, ok=True):
   """Completes the i-th held reply (ok) or fails it with deadline exceeded."""
   with _LOCK:
-    fut, result = HELD.pop(i)
+    fut, result, *_ = HELD.pop(i)
   if ok:
     fut.set_result(result)
   else:
@@ -180,7 +193,7 @@ class Client:
           return
         if action == 'hold':
           with _LOCK:
-            HELD.append((fut, res))
+            HELD.append((fut, res, address))
           return
         fut.set_result(res)
       finally:
